@@ -11,7 +11,7 @@
 From Coq Require Import List Arith Bool NArith.
 From FFSM2 Require Import Model.TaskList Model.BitArray Model.BitStream Model.Plan Model.Ancestors Model.Machine
   Proofs.BitArrayProofs Proofs.TaskListProofs Proofs.TaskListRun Proofs.PlanProofs Proofs.MachineFrame Proofs.MachinePlan Proofs.MachineLife Proofs.GuardProofs Proofs.CycleProofs Proofs.PlanStep
-  Proofs.SerialProofs Proofs.LogProofs Proofs.MachineTop Model.Multi Generated.InitFacts Proofs.ConstructProofs Proofs.LifeMonitor Proofs.ActivationRounds Proofs.IndexSafety Proofs.FeatureProofs Model.Script Proofs.Contract Proofs.Histories Proofs.StatusBits.
+  Proofs.SerialProofs Proofs.LogProofs Proofs.MachineTop Model.Multi Generated.InitFacts Proofs.ConstructProofs Proofs.LifeMonitor Proofs.ActivationRounds Proofs.IndexSafety Proofs.FeatureProofs Model.Script Proofs.Contract Proofs.Histories Proofs.StatusBits Proofs.Worlds Model.Cxx Generated.LeafCode Proofs.LeafTactics Proofs.LeafConsts Proofs.LeafCodeTaskList.
 Import ListNotations.
 
 (* a destination that is not the last survivor's is not the active state afterwards: a request cancelled by a guard is
@@ -156,11 +156,11 @@ Theorem C03_every_processing_step_of_every_history :
          forall (lg : bool) (pre : list (api_op P)) (op : api_op P) (post : list (api_op P)),
          ops_ok P cfg orc (construct P cfg orc lg) (pre ++ op :: post) ->
          is_processing_op P op = true ->
-         let s := run P cfg orc lg pre in
+         let s := Machine.run P cfg orc lg pre in
          let a := active P (co P s) in
          exists s5 : mstate P,
            Ready P cfg s5 a /\
-           run P cfg orc lg (pre ++ [op]) = process_request P cfg orc s5 /\
+           Machine.run P cfg orc lg (pre ++ [op]) = process_request P cfg orc s5 /\
            (exists l : list (event P), tr P s5 = l ++ tr P s /\ MachineFrame.quiet P cfg a l).
 Proof. exact (every_processing_step_of_every_history). Qed.
 Print Assumptions C03_every_processing_step_of_every_history.
